@@ -4,11 +4,21 @@
     gopacket's DecodingLayerParser (SCION, HBH skipper, E2E, UDP | SCMP) and, for SCMP
     errors, gopacket.NewPacket on the quote make of the datagram.  Definitions only. *)
 From Coq Require Import List NArith Bool.
-From Scion Require Import Lib.Check Lib.Bytes.
+From Scion Require Import Lib.Check.
 Import ListNotations.
 Local Open Scope N_scope.
 
 Module Dispatcher.
+
+(** big-endian words, as in Lib/Bytes.v (repeated here so that evaluating cases does not
+    load the arithmetic tactics that file needs for its lemmas; Proofs/Dispatcher.v shows
+    them equal) *)
+Fixpoint be (k : nat) (n : N) : list N :=
+  match k with
+  | O => []
+  | S k' => (n / 256 ^ N.of_nat k') mod 256 :: be k' n
+  end.
+Definition unbe (l : list N) : N := fold_left (fun a b => a * 256 + b) l 0.
 
 (** ------------------------------------------------------------------ addresses *)
 
@@ -324,7 +334,7 @@ Definition dest_ok (c : cfg) (p : pkt) (a : ip) (port : N) : bool :=
     if is_ip_type (dst_t p) then
       match addr_from_slice (dst_raw p) with Some h => ip_eqb h a && (dport =? port) | None => false end
     else if dst_t p =? 4 then
-      existsb (fun e => key_eqb (fst e) (dst_ia p, unbe (firstn 2 (dst_raw p))) && pair_eqb (snd e) (a, port))
+      existsb (fun e => key_eqb (dst_ia p, unbe (firstn 2 (dst_raw p))) (fst e) && pair_eqb (snd e) (a, port))
               (svcs c)
     else false
   | L4Scmp ty _ payload q =>
@@ -346,6 +356,35 @@ Definition dest_ok (c : cfg) (p : pkt) (a : ip) (port : N) : bool :=
             end)
     end
   end.
+
+(** the same, as a proposition: the destinations a datagram names *)
+Definition err_with_quote (ty : N) (payload : list N) : Prop :=
+  exists hl, err_hdr_len ty = Some hl /\ (hl < length payload)%nat.
+
+Definition legit_dest (c : cfg) (p : pkt) (a : ip) (port : N) : Prop :=
+  (* the SCION destination host (an IP) with the UDP destination port *)
+  (exists sp, l4p p = L4Udp sp port /\ is_ip_type (dst_t p) = true /\
+              addr_from_slice (dst_raw p) = Some a)
+  \/
+  (* the registered address of the SCION destination service *)
+  (exists sp dp s, l4p p = L4Udp sp dp /\ parse_addr (dst_t p) (dst_raw p) = Some (HSVC s) /\
+                   In ((dst_ia p, s), (a, port)) (svcs c))
+  \/
+  (* the SCION destination host with the identifier of an echo / traceroute reply, or with
+     the UDP source port / request identifier quoted by an SCMP error *)
+  (exists ty code payload q, l4p p = L4Scmp ty code payload q /\
+     addr_from_slice (dst_raw p) = Some a /\
+     ((ty = 129 /\ scmp_id 4 payload = Some port) \/
+      (ty = 131 /\ scmp_id 20 payload = Some port) \/
+      (err_with_quote ty payload /\
+       ((q = QUdp port /\ port <> 0) \/
+        (exists qty, q = QScmp qty (Some port) /\ (qty = 128 \/ qty = 130)))))).
+
+(** paths as the SCION decoder delivers them (and with pointers inside the path) *)
+Definition wf_spath (p : spath) : Prop :=
+  sp_ci p < num_inf p /\ sp_chf p < num_hops p /\ num_hops p <= 64 /\
+  length (sp_infos p) = N.to_nat (num_inf p) /\
+  0 < sp_s0 p /\ (sp_s1 p = 0 -> sp_s2 p = 0).
 
 Definition info_eqb (a b : info) : bool :=
   Bool.eqb (i_peer a) (i_peer b) && Bool.eqb (i_cons a) (i_cons b) &&
